@@ -220,6 +220,29 @@ fn replay(h: &Value, ops: &[Op], specs: &[Value], scale: f64, want: &MWant, rep:
             if w[s].mn.estimate().to_bits() != w[s].mn.min().to_bits() || w[s].mx.estimate().to_bits() != w[s].mx.max().to_bits() {
                 viol(rep, prop, "Min/Max", scale, h, s, "estimate", "estimate() differs from the headline accessor".into());
             }
+            if prop == "C16" {
+                // an empty estimator that comes back from a serde round trip is still an empty estimator
+                // (JSON cannot carry the infinite sentinels, so in this tree the round trip is refused;
+                // if it is ever accepted, what it returns has seen no observation either)
+                let rm: Option<Min> = serde_json::to_string(&w[s].mn).ok().and_then(|j| serde_json::from_str(&j).ok());
+                let rx: Option<Max> = serde_json::to_string(&w[s].mx).ok().and_then(|j| serde_json::from_str(&j).ok());
+                if let Some(r) = rm {
+                    rep.evaluations += 1;
+                    if !same(r.min(), emn) {
+                        viol(rep, prop, "Min", scale, h, s, "min after serde", format!("an empty Min restored from its own serialised form reports min() = {}", fmt_f(r.min())));
+                    }
+                } else {
+                    rep.bump("empty_roundtrip_refused", 1);
+                }
+                if let Some(r) = rx {
+                    rep.evaluations += 1;
+                    if !same(r.max(), emx) {
+                        viol(rep, prop, "Max", scale, h, s, "max after serde", format!("an empty Max restored from its own serialised form reports max() = {}", fmt_f(r.max())));
+                    }
+                } else {
+                    rep.bump("empty_roundtrip_refused", 1);
+                }
+            }
             // ingestion paths on the add-only slots: collect (value / reference), extend (Min only:
             // Max has no Extend impl in this tree)
             if addonly[s] && prop != "C16" {
